@@ -203,7 +203,12 @@ pub fn observe(id: usize, tags: Vec<String>, j: &Value, s: &SPDC, with_spectrum:
                 "jsi": fxs(&r_jsi.iter().map(|x| *(*x / one)).collect::<Vec<_>>()),
                 "sing": fxs(&r_sing.iter().map(|x| *(*x / one)).collect::<Vec<_>>()),
                 "idler_sing_n": fxs(&r_isn), "idler_sing": fxs(&r_is.iter().map(|x| *(*x / one)).collect::<Vec<_>>())},
-      "swapped": {"ref_sing": fx(sw_ref), "sing": fxs(&sw_vals)},
+      "swapped": {"ref_sing": fx(sw_ref), "sing": fxs(&sw_vals),
+                  // C20_swap_involutive / C20_idler_of_swapped_is_signal: swapping twice gives the setup back, so the idler singles of the
+                  // swapped setup's spectrum are the signal singles of this one at the exchanged frequencies
+                  "twice_same": swapped.clone().with_swapped_signal_idler() == *s,
+                  "idler_sing_n_of_swapped": fxs(&sw_js.jsi_singles_idler_normalized_range(fs)),
+                  "sing_n_exchanged": fxs(&pts[..npts_grid].iter().map(|(ws, wi)| js.jsi_singles_normalized(*wi, *ws)).collect::<Vec<_>>())},
       "centre": {"jsa_n_abs": fx(jso.jsa_normalized(w0s, w0i).norm()), "jsi_n": fx(jso.jsi_normalized(w0s, w0i)),
                  "sing_n": fx(jso.jsi_singles_normalized(w0s, w0i))},
     })
